@@ -55,7 +55,7 @@ func init() {
 	})
 	register(&Property{
 		ID: "C50",
-		Explanation: "Decides the usage discipline around displayed locations, not the URL rewriting itself: (location-taint) a forward taint analysis over the whole module (flow- and context-insensitive; through phis, conversions, concatenation, strings/fmt.Sprint*/url helpers, local variables, captured variables, struct fields, varargs, parameters of module functions and their results) starting at every load of global.Options.Repo, SecondaryRepoOptions.Repo/LegacyRepo and at the content of the repository file finds no tainted argument of fmt.Print*/Fprint*/Errorf, log.*, debug.Log, the error constructors of internal/errors and pkg/errors, a method of the internal/ui printers and terminals, and no tainted store into a JSON-tagged struct field; the only way out is location.StripPassword; (strip-registered) every backend factory registration is classified: a backend whose package takes a password out of its URL (Userinfo.Password / url.UserPassword) must register a strip function other than location.NoPassword (rest), location.StripPassword returns its input unchanged only when no factory knows the scheme and otherwise returns factory.StripPassword(s). (rest-strip-shape) rest.StripPassword returns its input unchanged only when url.Parse fails (such a location is rejected by restic) or no password is set, and otherwise replaces, in u.String(), the user info exactly as that string spells it (Userinfo.String(), escaped) by text not built from the password — added after a seeded change that searched for the decoded user:password and so missed every password containing an escaped character. Not decided: url.URL's own escaping rules, locations shown by backends from their parsed Config (after location.Parse), and text that the operating system or libraries echo.",
+		Explanation: "Decides the usage discipline around displayed locations, not the URL rewriting itself: (location-taint) a forward taint analysis over the whole module (flow- and context-insensitive; through phis, conversions, concatenation, strings/fmt.Sprint*/url helpers, local variables, captured variables, struct fields, varargs, parameters of module functions and their results) starting at every load of global.Options.Repo, SecondaryRepoOptions.Repo/LegacyRepo and at the content of the repository file finds no tainted argument of fmt.Print*/Fprint*/Errorf, log.*, debug.Log, the error constructors of internal/errors and pkg/errors, a method of the internal/ui printers and terminals, and no tainted store into a JSON-tagged struct field; the only way out is location.StripPassword; (strip-registered) every backend factory registration is classified: a backend whose package takes a password out of its URL (Userinfo.Password / url.UserPassword) must register a strip function other than location.NoPassword (rest), location.StripPassword returns its input unchanged only when no factory knows the scheme and otherwise returns factory.StripPassword(s). (rest-strip-shape) rest.StripPassword returns its input unchanged only when url.Parse fails (such a location is rejected by restic) or no password is set, and otherwise replaces, in u.String(), the user info exactly as that string spells it (Userinfo.String(), escaped) by text not built from the password — added after a seeded change that searched for the decoded user:password and so missed every password containing an escaped character; (strip-parses-what-parse-accepts) rest.ParseConfig and rest.StripPassword hand url.Parse the same function of the location string (prepareURL(s)), so a location whose password StripPassword cannot remove is not accepted either — added after a seeded change that trimmed whitespace on the accepting side only. Not decided: url.URL's own escaping rules, locations shown by backends from their parsed Config (after location.Parse), and text that the operating system or libraries echo.",
 		Assumptions: commonAssumptions,
 		Technique:   "static analysis: interprocedural forward taint propagation over SSA values, fields and parameters with a sanitiser and an enumerated sink set (go/ssa)",
 		AllConfigs:  true,
@@ -63,8 +63,12 @@ func init() {
 			ruleLocationTaint(c)
 			ruleStripRegistered(c)
 			ruleRestStripShape(c)
+			ruleStripParsesWhatParseAccepts(c)
+			ruleURLBackendsStrip(c)
 		},
 		Controls: []Control{
+			{Name: "parseconfig-unescapes-before-parsing", File: "internal/backend/rest/config.go",
+				Old: "	s = prepareURL(s)\n\n	u, err := url.Parse(s)\n	if err != nil {\n		return nil, errors.WithStack(err)\n	}", New: "	s = prepareURL(strings.ToLower(s))\n\n	u, err := url.Parse(s)\n	if err != nil {\n		return nil, errors.WithStack(err)\n	}", Rule: "strip-parses-what-parse-accepts"},
 			{Name: "init-prints-raw-location", File: "cmd/restic/cmd_init.go",
 				Old: "s.Config().ID[:10], location.StripPassword(gopts.Backends, gopts.Repo))", New: "s.Config().ID[:10], gopts.Repo)", Rule: "location-taint"},
 			{Name: "open-error-shows-raw-location", File: "internal/global/global.go",
